@@ -1694,12 +1694,15 @@ func ruleNoGlobalSessionData(r *Run) {
 			if n, ok := t.(*types.Named); ok {
 				if n.Obj().Pkg() != nil {
 					pp := n.Obj().Pkg().Path()
+					_, isStruct := n.Underlying().(*types.Struct)
+					_, isIface := n.Underlying().(*types.Interface)
+					holdsData := isStruct || isIface // enums, function types and the like carry no session data
 					switch {
-					case pp == pkgModels, strings.HasPrefix(pp, repoMod+"/modules"):
+					case (pp == pkgModels || strings.HasPrefix(pp, repoMod+"/modules")) && holdsData:
 						return shortPkg(pp) + "." + n.Obj().Name()
 					case pp == pkgHCWS && (n.Obj().Name() == "Msg" || n.Obj().Name() == "ResponseSender" || n.Obj().Name() == "ProtoMsg"):
 						return "websocket." + n.Obj().Name()
-					case strings.Contains(pp, "/messages/"):
+					case strings.Contains(pp, "/messages/") && holdsData:
 						return shortPkg(pp) + "." + n.Obj().Name()
 					case !isRepoPkg(n.Obj().Pkg()):
 						return "" // foreign types (metrics vectors, regexps, …) are not followed
